@@ -197,19 +197,373 @@ def run_textmon(ctx):
     return doc
 
 
+
+# ---------------------------------------------------------------------------------------------
+# the generated recorder ("harness")
+# ---------------------------------------------------------------------------------------------
+
+ALL_FAMILIES = ["core", "repo", "unicode", "kinds", "stack", "slice", "arity", "getter", "rec", "random"]
+HARNESS_FAMILIES = {
+    "C01": ALL_FAMILIES, "C02": ALL_FAMILIES, "C03": ALL_FAMILIES, "C04": ALL_FAMILIES,
+    "C05": ["stack", "slice", "repo", "random"],
+    "C06": ["slice", "stack"],
+    "C07": ["kinds"],
+    "C08": ALL_FAMILIES, "C09": ALL_FAMILIES, "C10": ALL_FAMILIES, "C11": ALL_FAMILIES,
+    "C15": ALL_FAMILIES, "C16": ALL_FAMILIES,
+    "C17": ["arity", "unicode", "core", "repo", "stack", "getter", "random"],
+    "C18": ALL_FAMILIES,
+    "C20": ["rec", "core", "repo", "getter", "stack", "random"],
+}
+HARNESS_DIR = os.path.join(ENGINES_DIR, "harness")
+
+
+def emit_harness(ctx):
+    """Regenerate the harness sources from the corpus (files are only rewritten when they change)."""
+    vgen = ctx.build("vgen")
+    out = os.path.join(ctx.scratch, "%s-emit.json" % ctx.pid)
+    cmd = [vgen, "--cmd", "emit", "--shards", "16", "--tier", ctx.tier, "--seed", str(ctx.seed), "--out", out]
+    p = subprocess.run(cmd, cwd=ctx.root, env=ctx.env, stdout=subprocess.PIPE, stderr=subprocess.STDOUT, text=True, timeout=600)
+    if p.returncode != 0 or not os.path.exists(out):
+        raise Inconclusive("vgen emit failed:\n" + "\n".join(p.stdout.splitlines()[-20:]))
+    with open(out) as f:
+        doc = json.load(f)
+    if doc.get("problems"):
+        raise Inconclusive("corpus grammars rejected by pest_meta (corpus bug): %s" % doc["problems"][:3])
+    return doc
+
+
+def attribute_build_errors(ctx, output, bins):
+    """Map rustc errors in generated shard files to (grammar module, variant)."""
+    import re
+    hits = []
+    cache = {}
+    for m in re.finditer(r"^error(\[E\d+\])?: (.*)\n\s+--> src/bin/(shard_\d+)\.rs:(\d+):", output, re.M):
+        msg, shard, line = m.group(2), m.group(3), int(m.group(4))
+        if shard not in cache:
+            try:
+                with open(os.path.join(ctx.root, HARNESS_DIR, "src", "bin", shard + ".rs")) as f:
+                    cache[shard] = f.read().split("\n")
+            except OSError:
+                cache[shard] = []
+        lines = cache[shard]
+        text = lines[line - 1] if 0 < line <= len(lines) else ""
+        mod = None
+        for k in range(min(line, len(lines)) - 1, -1, -1):
+            mm = re.match(r"pub mod (\w+) \{", lines[k])
+            if mm:
+                mod = mm.group(1)
+                break
+        variant = None
+        mv = re.match(r"\s*pub mod (t|tv_\w+|p) \{ #\[derive", text)
+        if mv:
+            variant = mv.group(1)
+        hits.append({"shard": shard, "line": line, "module": mod, "derive_module": variant, "message": msg})
+    return hits
+
+
+def build_harness(ctx, bins, profile="dev", toolchain=None, extra_env=None, target=None):
+    args = ["build", "--offline"]
+    if profile == "release":
+        args.append("--release")
+    if target:
+        args += ["--target", target]
+    for b in bins:
+        args += ["--bin", b]
+    env = dict(ctx.env)
+    if extra_env:
+        env.update(extra_env)
+    p = ctx.cargo(args, HARNESS_DIR, "build harness (%d shards, %s)" % (len(bins), profile), timeout=5400, env=env, toolchain=toolchain)
+    if p.returncode != 0:
+        hits = attribute_build_errors(ctx, p.stdout, bins)
+        derive_hits = [h for h in hits if h["derive_module"] and h["derive_module"] != "p"]
+        if derive_hits and len(derive_hits) == len(hits):
+            return None, derive_hits
+        tail = "\n".join([l for l in p.stdout.splitlines() if l.startswith("error") or "-->" in l][:30])
+        raise Inconclusive("the recorder does not build against /repo (not attributable to derive expansions only):\n" + tail)
+    return True, []
+
+
+def run_shards(ctx, bins, bin_dir, prop, families, extra_args=None, env=None, timeout=5400, wrapper=None, jobs=None):
+    procs = []
+    njobs = jobs or max(1, 16 // max(1, len(bins)))
+    if len(bins) * njobs < 16:
+        njobs += 1
+    for b in bins:
+        out = os.path.join(ctx.scratch, "%s-%s.json" % (ctx.pid, b))
+        hb = os.path.join(ctx.scratch, "%s-%s.hb" % (ctx.pid, b))
+        for f in [out] + [hb + ".%d" % i for i in range(64)]:
+            if os.path.exists(f):
+                os.remove(f)
+        cmd = (wrapper or []) + [os.path.join(bin_dir, b), "--prop", prop, "--tier", ctx.tier, "--seed", str(ctx.seed), "--jobs", str(njobs),
+               "--families", ",".join(families), "--heartbeat", hb, "--out", out] + (extra_args or [])
+        log = open(os.path.join(ctx.scratch, "%s-%s.log" % (ctx.pid, b)), "w")
+        procs.append((b, out, hb, cmd, subprocess.Popen(cmd, cwd=ctx.root, env=env or ctx.env, stdout=log, stderr=subprocess.STDOUT), log))
+    docs, crashes = [], []
+    t_end = time.time() + timeout
+    for b, out, hb, cmd, p, log in procs:
+        try:
+            rc = p.wait(timeout=max(1, t_end - time.time()))
+        except subprocess.TimeoutExpired:
+            p.kill()
+            for _, _, _, _, q, _ in procs:
+                if q.poll() is None:
+                    q.kill()
+            raise Inconclusive("watchdog: shard %s did not finish within %ds" % (b, timeout))
+        finally:
+            log.close()
+        if rc == 0 and os.path.exists(out):
+            with open(out) as f:
+                docs.append(json.load(f))
+        else:
+            beats = []
+            for i in range(64):
+                try:
+                    with open(hb + ".%d" % i) as f:
+                        line = f.readline().strip()
+                    if line and line != '"DONE"':
+                        beats.append(json.loads(line))
+                except (OSError, ValueError):
+                    pass
+            with open(os.path.join(ctx.scratch, "%s-%s.log" % (ctx.pid, b))) as f:
+                tail = f.read()[-1500:]
+            crashes.append({"bin": b, "exit": rc, "in_flight": beats, "log_tail": tail, "cmd": cmd})
+    return docs, crashes
+
+
+def confirm_crash(ctx, crash, bin_dir, prop, families, env=None, wrapper=None):
+    """Re-run every in-flight case of a dead shard alone; only a reproduced death is a finding."""
+    confirmed = []
+    for beat in crash["in_flight"]:
+        rp = os.path.join(ctx.scratch, "%s-crash-replay.json" % ctx.pid)
+        with open(rp, "w") as f:
+            json.dump({"witness": beat}, f)
+        out = os.path.join(ctx.scratch, "%s-crash-out.json" % ctx.pid)
+        cmd = (wrapper or []) + [os.path.join(bin_dir, crash["bin"]), "--prop", prop, "--tier", ctx.tier, "--seed", str(ctx.seed), "--jobs", "1",
+               "--families", ",".join(families), "--replay", rp, "--out", out]
+        p = subprocess.run(cmd, cwd=ctx.root, env=env or ctx.env, stdout=subprocess.PIPE, stderr=subprocess.STDOUT, text=True, timeout=600)
+        if p.returncode != 0:
+            confirmed.append({"case": beat, "exit": p.returncode, "output": p.stdout[-800:]})
+    return confirmed
+
+
+def run_harness(ctx, profile="dev", prop=None, families=None, extra_args=None):
+    prop = prop or ctx.pid
+    fams = families or HARNESS_FAMILIES[prop]
+    emit = emit_harness(ctx)
+    bins = [s["bin"] for s in emit["shards"] if s["family"] in fams and s["grammars"]]
+    if ctx.replay:
+        with open(ctx.replay) as f:
+            w = json.load(f).get("witness") or {}
+        gid = w.get("grammar_id")
+        bins = [s["bin"] for s in emit["shards"] if gid in s["grammars"]]
+        if not bins:
+            raise Inconclusive("replay: grammar %s is not part of the current corpus (a thorough-tier random grammar needs the same VERIF_SEED and --tier thorough)" % gid)
+        extra_args = (extra_args or []) + ["--replay", ctx.replay]
+    ok, derive_errors = build_harness(ctx, bins, profile)
+    result = {"evaluations": 0, "distinct_nontrivial": 0, "counters": {}, "samples": [], "violations": [], "violation_counts": {},
+              "inconclusive": [], "notes": []}
+    if not ok:
+        # generated code does not compile: a verdict for C11 / C20, nothing can be said for the others
+        if prop in ("C11", "C20"):
+            h = derive_errors[0]
+            sig = "unclassified/%s/generated-code-does-not-compile" % prop
+            result["violations"].append({"signature": sig, "what": "the derive expansion of grammar module %s (%s) does not compile: %s" % (h["module"], h["derive_module"], h["message"]),
+                                         "witness": {"errors": derive_errors[:10]}})
+            result["violation_counts"][sig] = len(derive_errors)
+            result["distinct_nontrivial"] = 2
+            result["evaluations"] = len(derive_errors)
+            return result
+        raise Inconclusive("generated code of %s does not compile (%s); see C11 / C20" % (derive_errors[0]["module"], derive_errors[0]["message"]))
+    bin_dir = os.path.join(ctx.root, "target", "release" if profile == "release" else "debug")
+    docs, crashes = run_shards(ctx, bins, bin_dir, prop, fams, extra_args)
+    merged = merge_results(docs) if docs else result
+    merged["programs"] = sum(d.get("programs", 0) for d in docs)
+    merged["rules"] = sum(d.get("rules", 0) for d in docs)
+    merged["builds"] = [profile]
+    merged["engine_args"] = {"prop": prop, "families": fams}
+    for c in crashes:
+        confirmed = confirm_crash(ctx, c, bin_dir, prop, fams)
+        if confirmed:
+            sig = "unclassified/%s/process-died" % ("C09" if prop != "C11" else "C11")
+            if prop in ("C09", "C11"):
+                merged["violations"].append({"signature": sig, "what": "the recorder process died (exit %s) while running this case, reproducibly" % confirmed[0]["exit"], "witness": confirmed[0]["case"] | {"output": confirmed[0]["output"]}})
+                merged["violation_counts"][sig] = merged["violation_counts"].get(sig, 0) + len(confirmed)
+            else:
+                merged["inconclusive"].append("shard %s died (exit %s) reproducibly on %s; C09 reports this" % (c["bin"], c["exit"], json.dumps(confirmed[0]["case"])[:300]))
+        else:
+            merged["inconclusive"].append("shard %s died (exit %s) and the death was not reproduced in isolation: %s" % (c["bin"], c["exit"], c["log_tail"][-300:]))
+    merged["rule"] = HARNESS_RULE
+    return merged
+
+
+HARNESS_RULE = ("a case = (grammar, entry rule, input string, optional text before/behind it) executed on the generated typed parser, on the parser pest_derive "
+                "generates from the same text and on the reference interpreter; inputs per (grammar, rule) are seeded random derivations, their mutations, all strings of up to "
+                "6 grammar tokens (capped) and hostile strings, deduplicated, so every case is distinct; non-trivial = the typed prefix parse consumed at least one byte, or "
+                "failed on a non-empty input")
+
+def run_c09(ctx):
+    docs = [run_harness(ctx, profile="dev")]
+    # release: debug assertions off (unchecked slicing); the kind-nesting and slice families add
+    # nothing to the cursor arithmetic and are left out to keep the optimised build affordable
+    docs.append(run_harness(ctx, profile="release", families=[f for f in ALL_FAMILIES if f not in ("kinds", "slice")]))
+    merged = merge_results(docs)
+    merged["builds"] = ["dev (debug assertions on)", "release (unchecked slicing, boundary hooks on)"]
+    merged["rule"] = HARNESS_RULE + "; every case is executed once per build profile (evaluations count both, distinct cases are counted per profile)"
+    return merged
+
+
+def run_c11(ctx):
+    return run_harness(ctx)
+
+
+def run_c20(ctx):
+    return run_harness(ctx)
+
+
 TRUST_PEST_TEXT = [
     "pest 2.7.14's Position/Span are the reference (the only pest version available offline, inside the repository's version bound)",
     "only x86_64-linux, release profile of the engine (the checked functions contain no cfg(debug_assertions) branches)",
 ]
 
 HOOK_COMMITS = ["fea8122"]
+
+TRUST_HARNESS = [
+    "pest / pest_derive / pest_meta 2.7.14 (the only versions available offline, inside the repository's bound) are the reference where pest is defined",
+    "the reference interpreter engines/refpeg decides the cases pest leaves undefined; it is cross-checked against pest on every defined case of every run (counter model_conflict_* must be 0)",
+    "dev profile (debug assertions on) unless the check says otherwise; x86_64-linux",
+    "held = held on the executions listed under coverage; grammars outside the families and inputs beyond the generated sets are not covered",
+]
+
+
+def harness_prop(pid, technique, text, note, required, level="exploration", design=None):
+    return {
+        "run": run_harness,
+        "engine": "harness",
+        "technique": technique,
+        "design_ref": design or ("6/" + pid),
+        "level_text": text,
+        "level_note": note,
+        "level": level,
+        "required": required,
+        "assumptions": TRUST_HARNESS,
+    }
+
 NOT_APPLICABLE = {}
 ENGINES = [
+    {"name": "harness", "path": "engines/harness", "serves_properties": ["C01", "C02", "C03", "C04", "C05", "C06", "C07", "C08", "C09", "C10", "C11", "C15", "C16", "C17", "C18", "C20"],
+     "kind_free_text": "generated recorder: per corpus grammar the real derive (pest_typed_derive) and pest_derive side by side, generic case runner over the public API, oracles (pest, reference interpreter, self-differential), sharded binaries (sources emitted by vgen, gitignored)"},
+    {"name": "refpeg", "path": "engines/refpeg", "serves_properties": ["C01", "C02", "C04", "C05", "C06", "C07", "C10", "C11", "C16", "C17", "C20"],
+     "kind_free_text": "reference PEG interpreter over pest_meta's optimized/raw ASTs (immutable stack; attempt trace; mention labels; derivation events; emulation switches for known findings) and workload generator"},
+    {"name": "vgen", "path": "engines/vgen", "serves_properties": ["C11", "C20"],
+     "kind_free_text": "corpus loader/generator and harness source emitter; generator-level monitors"},
     {"name": "textmon", "path": "engines/textmon", "serves_properties": ["C12", "C13", "C14"],
      "kind_free_text": "exhaustive small-scope differential monitor: pest_typed Position/Span/formatter vs pest::Position/pest::Span and an independent line/cell model"},
 ]
 
 PROPS = {
+    "C01": harness_prop(
+        "C01", "differential runtime monitor: generated typed parser vs the parser pest_derive generates vs reference PEG interpreter (refpeg, full backtracking) on a grammar corpus",
+        "Every rule of every corpus grammar (all operators, rule kinds, built-ins incl. 258 Unicode properties, stack forms, four skip configurations; thorough: + seeded random grammars) is used as entry point on seeded sentences, mutations, small-scope exhaustive token strings and hostile strings; verdict and consumed offset of try_parse_partial are compared with pest (wrapper-rule end offset) and, where pest panics or skips a restore, with refpeg. translation_validation: programs = grammars compiled by the real derive, every case a checked disagreement candidate.",
+        "pest is the oracle iff it agrees with refpeg(Full) or the rule reaches no stack operation; a pest/refpeg disagreement without stack operations is a model conflict (case dropped, counted, must be 0)",
+        {"verdicts_compared": 100000, "typed_accepted": 10000, "typed_rejected": 10000, "oracle_pest": 100000, "oracle_refpeg_pest_panicked": 100},
+        level="translation_validation"),
+    "C02": harness_prop(
+        "C02", "differential runtime monitor on token trees: Pairs/Pair API vs pest Pairs pruned below @/$ tokens (refpeg tree where pest is undefined)",
+        "For every accepted case of the corpus run the tokens exposed by Pairs::self_or_children and Pair::as_thin_token (rule, start, end, children in order) are compared with pest's pair tree after removing descendants of atomic / compound-atomic tokens.",
+        "kinds of rules are read from pest_meta's AST; trees are only compared when verdict and offset already agree (C01 reports the rest)",
+        {"trees_compared": 20000, "thin_tokens_compared": 10000},
+        level="translation_validation"),
+    "C03": harness_prop(
+        "C03", "self-differential runtime monitor: check entry points vs parse entry points on three input forms, plus raw Tracker state with an explicit stack",
+        "try_check_partial vs try_parse_partial and try_check vs try_parse on &str, Position and Span forms: same verdict, same cursor, identical error (location, line/col, Display); with a harness-owned Stack and Tracker the raw Tracker::finish() of both paths must be identical on failure.",
+        "no external oracle needed; cases where both paths unwind are left to C09",
+        {"check_vs_parse_agreed_ok": 20000, "check_vs_parse_agreed_err": 100000, "trackers_compared": 100000}),
+    "C04": harness_prop(
+        "C04", "runtime monitor: full-parse entry points vs prefix parse + independent trailing-skip computation (refpeg skip on the same window)",
+        "try_parse, try_check, TypedParser::try_parse/try_check and the &String form are compared with: prefix parse offset, then the implicit skip computed by the reference interpreter (none for @/$ entry rules), then end of input; the tree returned must be the prefix parse's (Debug identity).",
+        "the prefix offset itself is judged by C01; skippable and almost-skippable tails are appended to sentences by the workload generator",
+        {"full_parse_expected_ok": 10000, "full_parse_expected_err_unread_input": 10000, "trailing_skip_nonempty": 1000}),
+    "C05": harness_prop(
+        "C05", "invariant hooks (stack before/after every failed alternative / optional / iteration and every predicate, both code paths) + differential against refpeg with an immutable stack",
+        "Hooks at the call sites of choices!, Option, the repetition loops and both predicates record the stack when the construct is entered and left; any difference after a non-contributing attempt is a violation (recognised as the known nested-snapshot finding only if refpeg driven with the real pest::Stack in pest-typed's call pattern shows the same event). Black box: acceptance/offset of stack-dump-probed rules vs refpeg(Full).",
+        "hook kinds that are never observed make the check inconclusive (required counters)",
+        {"hook_failed_choice": 1000, "hook_failed_optional": 1000, "hook_failed_iteration": 1000, "hook_failed_positive": 100, "hook_failed_negative": 100,
+         "hook_stack_touched_then_undone_choice": 100, "hook_stack_touched_then_undone_optional": 100, "hook_stack_touched_then_undone_iteration": 100,
+         "hook_stack_touched_then_undone_positive": 100, "hook_stack_touched_then_undone_negative": 100}),
+    "C07": harness_prop(
+        "C07", "differential runtime monitor on the kind-nesting family: offsets and token spans vs the pest_derive parser",
+        "All 125 nestings (depth 3) of the five rule kinds around a body with a sequence, *, + and {2}, under four WHITESPACE/COMMENT configurations (none, silent WS, silent COMMENT, non-silent both): verdict, offset and pruned token tree vs pest on sentences with skippable text at legal and illegal gaps.",
+        "these grammars have no stack operations, so pest is always the oracle",
+        {"verdicts_compared": 100000, "trees_compared": 10000, "typed_accepted": 10000},
+        level="translation_validation"),
+    "C08": harness_prop(
+        "C08", "self-differential runtime monitor: Span / Position sub-inputs vs a fresh owned copy of the slice, offsets shifted",
+        "Every case is executed on an owned copy of s and on Span(pre+s+post, |pre|, |pre|+|s|) / Position(pre+s, |pre|) where pre/post are attractive to the grammar (continue literals, complete needles, skippable text), plus all pairs of char-boundary cuts of sampled inputs; verdict, consumed length, tokens (shifted) and error location must agree for the partial and full entry points.",
+        "the owned-slice run is tied to pest by C01",
+        {"span_form_cases": 100000, "span_form_with_text_behind_the_end": 10000, "span_form_with_text_before_the_start": 10000, "subinput_agreed_ok": 20000}),
+    "C10": harness_prop(
+        "C10", "runtime monitor over error reports: bounds, prefix, stability; truthfulness against the reference interpreter's attempt trace (hook trace used to detect diverged executions)",
+        "Every rejected case: location on a boundary inside the input and not before the matched prefix, line/col equal to pest::Position's, rendering does not panic and is stable across runs; Tracker::finish() obtained with an explicit tracker equals the rendered lists, and every rule listed expected (unexpected) has a failing (matching) attempt at that position in refpeg's trace.",
+        "truthfulness is only judged when every tracked attempt of the real run also occurs in the model trace (otherwise the executions diverged; counted as inconclusive for that case)",
+        {"error_reports_checked": 100000, "expected_rules_checked": 50000, "unexpected_rules_checked": 20}),
+    "C15": harness_prop(
+        "C15", "runtime monitor: traversal helpers vs own DFS/BFS over the token tree",
+        "For every accepted case of a non-silent rule: children() vs as_token().children, as_thin_token vs as_token, span(), pre-order with depths vs own DFS, level-order vs own BFS, format_as_tree vs own rendering, callback-error propagation, nesting and sibling order of spans.",
+        "the token tree itself is tied to pest by C02",
+        {"pairs_checked": 20000, "trees_traversed": 20000, "tokens_traversed": 50000}),
+    "C16": harness_prop(
+        "C16", "runtime monitor: generated getters (emit_rule_reference) vs mention labels recorded by the reference interpreter",
+        "For every accepted case every generated getter of the entry rule is called and flattened (Vec-major, tuple-slot-minor); node count and spans must equal the matches refpeg committed directly in the rule's own expression in derivation order, and the static Option/Vec/tuple shape must equal the shape computed from the optimized expression.",
+        "only compared when verdict/offset agree with the model; a getter missing from the generated code is a build error attributed to the derive expansion",
+        {"getters_called": 50000, "getters_with_nodes": 20000}),
+    "C17": harness_prop(
+        "C17", "generated structure walker calling every accessor of choices / sequences / repetitions / leaves; event list vs the reference interpreter's derivation",
+        "vgen emits, per rule, code that calls _k(), if_then/else_if/else_then, reference(), consume(), match_choices!, get_matched/get_all/as_ref/into_matched, iter_matched/iter_all/into_iter_matched and the content/span fields of every leaf kind on the parsed tree; accessor-internal contradictions are findings on the spot and the resulting event list (alternative index, iteration counts, skip item counts, leaf characters/spellings/NEWLINE kinds/PEEK-POP-skip texts) must equal refpeg's derivation events.",
+        "arities 2..16 incl. macro-generated >= 12; PEEK/POP spans are compared by text (the property's wording), not by offset",
+        {"trees_walked": 20000, "accessor_events": 100000, "accessor_kind_C": 5000, "accessor_kind_*": 5000, "accessor_kind_X": 5000, "accessor_kind_P": 500, "accessor_kind_NL": 300, "accessor_kind_I": 300}),
+    "C18": harness_prop(
+        "C18", "runtime monitor over values: clone/==/Hash/Debug of results, two parses of one input object, results through different sub-ranges of one string object compared pairwise",
+        "clone == original (both ways), same Debug, same hash; two parses of the same &str compare equal and hash equally; for up to six windows of one parent string all ordered pairs: a == b iff Debug(a) == Debug(b), and then equal hashes.",
+        "SipHash with fixed keys (DefaultHasher::new)",
+        {"values_checked": 20000, "reparsed_twice": 100000, "result_pairs_compared": 100000, "result_pairs_equal": 20000}),
+    "C06": harness_prop(
+        "C06", "differential runtime monitor on the slice / stack families (final stack contents with a harness-owned Stack) + small-scope exhaustive direct instantiation of the stack nodes (rtmon)",
+        "Generated parsers for PUSH ... PEEK[a..b] with every a,b in -6..6 (and open-ended) in atomic and non-atomic context and for every stack built-in inside every backtracking construct: verdict/offset vs pest or refpeg, and the contents of the explicit Stack after try_parse_partial_with / try_check_partial_with vs the model's stack.",
+        "empty-stack PEEK/POP/DROP must fail, not unwind (an unwind is reported here and by C09)",
+        {"verdicts_compared": 50000, "final_stacks_compared": 5000, "oracle_refpeg_pest_panicked": 500}),
+    "C09": {
+        "run": run_c09,
+        "engine": "harness",
+        "technique": "runtime monitors in two build profiles: catch_unwind at every entry point, boundary hooks that stay on in release, offset range/boundary assertions on everything reported; process exit status",
+        "design_ref": "6/C09",
+        "level_text": "All entry points on &str, &String, Position and Span forms over hostile alphabets (1-4 byte characters, CR/LF, the grammar's literals cut inside multi-byte neighbours), in the dev profile and in the release profile (where slicing is unchecked and the verif-hooks boundary monitor turns a stray cursor into a recorded event): no unwind, every cursor / token span / error location / stack entry inside the input range on a char boundary, span text can be taken, and the recorder process never dies (a dead shard is re-run on the in-flight case to confirm).",
+        "level_note": "a clean run is not memory safety: only paths the workload reaches; inputs are exact-capacity heap buffers so that an out-of-range read leaves the allocation",
+        "level": "exploration",
+        "required": {"entry_point_calls": 1000000, "hook_cursor_checks": 1000000},
+        "assumptions": TRUST_HARNESS,
+    },
+    "C11": {
+        "run": run_c11,
+        "engine": "harness+vgen",
+        "technique": "bounded-progress monitor (logical step budget hook, 1000 x reference steps + 10^6) on every parse; the corpus build is the 'emits code that compiles' observation",
+        "design_ref": "6/C11",
+        "level_text": "Termination is restated as bounded progress: every entry point on every case must finish within 1000 x (reference interpreter steps) + 10^6 hook ticks, counted deterministically; a wall-clock watchdog only yields 'inconclusive'. All corpus grammars are compiled by the real derive; a compile error located in a derive expansion is a violation.",
+        "level_note": "grammars that pest accepts but that are not well-founded on an input (runaway recursion through a predicate, non-progressing repetition) are detected by the model and excluded, as the property's precondition says",
+        "level": "exploration",
+        "required": {"parses_with_step_budget": 100000, "hook_ticks": 1000000},
+        "assumptions": TRUST_HARNESS,
+    },
+    "C20": {
+        "run": run_c20,
+        "engine": "harness+vgen",
+        "technique": "self-differential runtime monitor across option variants compiled from the same grammar text (seven option sets), known optimizer-off divergence recognised by interpreting the raw AST",
+        "design_ref": "6/C20",
+        "level_text": "The same grammars are compiled under box_only_if_needed, emit_rule_reference=false, emit_tagged_node_reference, do_not_emit_span, no_warnings, all-on and pest_optimizer=false; for every case verdict, offset and token tree of the prefix parse and the verdict of the full parse must equal the default build's (which C01/C02 tie to pest). Mutually recursive grammars are in the set; a variant module that does not compile is a violation.",
+        "level_note": "translation_validation: programs = grammar x option-set modules compiled",
+        "level": "translation_validation",
+        "required": {"variant_runs": 100000, "variant_noopt": 10000, "variant_boxifneeded": 10000},
+        "assumptions": TRUST_HARNESS,
+    },
     "C12": {
         "run": run_textmon,
         "engine": "textmon",
